@@ -7,7 +7,8 @@ inventory      every concrete class found in pybrops.breed.prot.sel.prob at run 
 ctor_<crit>    constructor-level clauses on harness-made data: definition (oracle: pbt/oracles/problem_defs.py,
                exact rational arithmetic), agreement of the subset / integer / binary / real encodings,
                listing-order and rescaling invariance, evalfn = weights x transformations(latent), evaluate()
-               row-wise equal to evalfn, nlatent = len(latent)
+               row-wise equal to evalfn, nlatent = len(latent); real-encoded vectors come in units of 2**-100 .. 2**100
+               (totals ~1e-37 .. ~1e+37) in every sub-check that builds a real-encoding class
 hist_<crit>    histories on one problem object per encoding: built, verified, then re-declared through public setters (subset
                size ndecn, single data attributes, all data, number of candidates, weights, transformations and their kwargs,
                decision-space arrays) and verified after every assignment with a decision vector of the size THEN declared
@@ -47,7 +48,12 @@ EPS = D.EPS
 
 ASSUMPTIONS = [
     "a subset decision vector lists DISTINCT members (a subset); repeated members are expressed with the integer encoding",
-    "integer / binary / real decision vectors have a positive sum (at least one selected element)",
+    "integer / binary / real decision vectors have a positive sum (at least one selected element); the all-zero vector (0/0) has no "
+    "defined value and is not generated",
+    "real contribution vectors: non-negative entries, totals between ~1e-37 and ~1e+37 (small-integer counts times scale * 2**pow, "
+    "pow = -100..100, exact in binary floating point; free vectors of [0,1]^n times a factor of the same range) - far from the "
+    "underflow of 1/total; nine real-encoding classes are known to stop normalising below a total of 1e-10 (finding F-C05-i, explicit "
+    "class list NEAR_ZERO_TOTAL_FALLBACK): for them the value clauses are skipped below that total, for every other class they are asserted",
     "kinship criteria receive an upper-triangular factor C; the criterion is defined through K = C'C (OCS/MGR/L2: sqrt(c'Kc); "
     "MEH: the library's own latent form -(1 - sqrt(c'Kc)))",
     "GenotypeBuilder: 1 <= nbestfndr <= number of selected taxa",
@@ -177,6 +183,25 @@ def _triu(draw, n):
     return [[(draw(_pos()) if i == j else (draw(_num()) if j > i else 0.0)) for j in range(n)] for i in range(n)]
 
 
+def _pow2():
+    """exponent e of a power-of-two factor 2**e for real contribution vectors (exact in binary floating point, so the rational
+    definition of the rescaled vector is the definition of the original one): whole range -100..100, with weight on totals below
+    the 1e-10 ~ 2**-33.2 where a 'sum ~ 0' fallback would sit, and on the neighbourhood of that threshold"""
+    return st.one_of(st.just(0), st.integers(-100, 100), st.integers(-100, -34), st.integers(-44, -28),
+                     st.sampled_from([-100, -90, -70, -50, -40, -37, -36, -35, -34, -33, -30, 40, 100]))
+
+
+def _pow2_some():
+    """the same, two thirds of the time 0: for the sub-checks whose ONLY real-encoded vector is scale * 2**pow * counts (histories,
+    factories) - there a tiny total replaces the ordinary one, and for the classes of finding F-C05-i it is a skipped comparison"""
+    return st.one_of(st.just(0), st.just(0), _pow2())
+
+
+def real_factor(dec):
+    """factor that turns the drawn integer counts into the real-encoded vector: scale * 2**pow (cases recorded before `pow` existed: scale)"""
+    return float(dec["scale"]) * 2.0 ** int(dec.get("pow", 0))
+
+
 @st.composite
 def _decision(draw, nd, force_binary=False, kmin=1):
     mode = "binary" if force_binary else draw(st.sampled_from(["binary", "binary", "counts"]))
@@ -199,7 +224,8 @@ def _decision(draw, nd, force_binary=False, kmin=1):
             "perm": draw(st.integers(0, 10 ** 6)), "perm2": draw(st.integers(0, 10 ** 6)),
             "scale": draw(st.one_of(st.floats(1e-3, 1e3, allow_nan=False), st.sampled_from([1.0, 0.1, 3.0, 1e-6, 1e6]))),
             "xreal": xreal,
-            "scale2": draw(st.one_of(st.floats(1e-3, 1e3, allow_nan=False), st.sampled_from([0.5, 2.0, 3.0, 1e-5])))}
+            "scale2": draw(st.one_of(st.floats(1e-3, 1e3, allow_nan=False), st.sampled_from([0.5, 2.0, 3.0, 1e-5]))),
+            "pow": draw(_pow2_some()), "pow1": draw(_pow2()), "pow2": draw(_pow2())}
 
 
 @st.composite
@@ -592,6 +618,49 @@ def _perm(seed, k):
 
 
 # ----------------------------------------------------------------------------------------------------------------
+# known finding F-C05-i: real-encoding classes that stop normalising when the total of the vector is below 1e-10
+# ----------------------------------------------------------------------------------------------------------------
+# `xsum = xsum if abs(xsum) >= 1e-10 else 1.0` in latentfn: a contribution vector of the declared space [lower, upper]^n whose total
+# lies in (0, 1e-10) is used unnormalised, so the value depends on the scale of the vector, differs from the other encodings and from
+# the definition.  EXPLICIT list of the real-encoding classes that have the fallback on the unchanged tree (probe of 2026-10-04: each
+# class, x = 2**e * counts, e = -20..-300).  The five real-encoding classes that are NOT listed (family, L1, L2, optimal haploid value,
+# usefulness criterion) normalise every positive total and are asserted in full; a class that acquires the fallback later is reported
+# because it is not listed.  (The integer / binary classes of the listed criteria carry the same line; their totals are >= 1.)
+NEAR_ZERO_TOTAL_FALLBACK = frozenset([
+    "EstimatedBreedingValueRealSelectionProblem",
+    "GenomicEstimatedBreedingValueRealSelectionProblem",
+    "RandomRealSelectionProblem",
+    "WeightedGenomicRealSelectionProblem",
+    "GeneralizedWeightedGenomicEstimatedBreedingValueRealSelectionProblem",
+    "OptimalContributionRealSelectionProblem",
+    "MeanGenomicRelationshipRealSelectionProblem",
+    "MeanExpectedHeterozygosityRealSelectionProblem",
+    "ExpectedMaximumBreedingValueRealSelectionProblem",
+])
+NEAR_ZERO_TOTAL = 1e-10 * (1.0 + 1e-9)      # input-side signature: total of the vector below the library's threshold (the margin covers
+                                            # the last-place difference between the exact total and numpy's pairwise sum)
+
+
+def real_total(x):
+    return math.fsum(float(v) for v in x)
+
+
+def near_zero_known(ctx, crit, enc, x):
+    """True = skip the clauses that compare latentfn(x) of this REAL-encoded vector with the definition / another scale / another encoding"""
+    if enc != "real":
+        return False
+    cls = CLASSES[crit]["real"]
+    return ctx.known("F-C05-i", real_total(x) < NEAR_ZERO_TOTAL and cls.__name__ in NEAR_ZERO_TOTAL_FALLBACK)
+
+
+def real_labels(ctx, x, pre="real"):
+    s = real_total(x)
+    ctx.label(pre + "_total<1e-10", s < 1e-10)
+    ctx.label(pre + "_total<1e-20", s < 1e-20)
+    ctx.label(pre + "_total>1e+10", s > 1e10)
+
+
+# ----------------------------------------------------------------------------------------------------------------
 # the constructor-level check
 # ----------------------------------------------------------------------------------------------------------------
 def build(crit, enc, case, rec, ndecn):
@@ -645,6 +714,10 @@ def check_ctor(case, ctx):
     if "real" in encs:
         s = float(dec["scale"])
         vectors["real"] = [("scaled", numpy.array([s * v for v in cnt], dtype=float))]
+        if dec.get("pow1", 0):
+            # the same counts in units of 2**pow1 (exact): the same rational contributions, totals from ~1e-30 to ~1e+31
+            vectors["real"].append(("counts_x2^%d" % dec["pow1"], numpy.array([2.0 ** int(dec["pow1"]) * v for v in cnt], dtype=float)))
+            real_labels(ctx, vectors["real"][-1][1])
     if binary_mode and "binary" in encs:
         vectors["binary"] = [("indicator", numpy.array(cnt, dtype=int))]
     if binary_mode and "subset" in encs:
@@ -665,11 +738,13 @@ def check_ctor(case, ctx):
             lat = prob.latentfn(x)
             ctx.check(isinstance(lat, numpy.ndarray) and lat.ndim == 1 and len(lat) == nlat, crit + ".latent.shape",
                       lambda: "%s %s: latent %r, expected length %d" % (enc, tag, getattr(lat, "shape", None), nlat))
-            if not (crit == "PAU" and ctx.known("F-C05-b", pau_signature(data, members))):
+            nz = near_zero_known(ctx, crit, enc, x)
+            if not nz and not (crit == "PAU" and ctx.known("F-C05-b", pau_signature(data, members))):
                 ctx.check(_close_vec(lat, ref, tol), "%s.definition.%s" % (crit, enc),
                           lambda: "%s x=%s: latent %s, definition %s (tol %s)" % (tag, x.tolist(), lat.tolist(), ref, tol))
             ctx.check(numpy.array_equal(x, x0), crit + ".latentfn_mutated_x")
-            lat_by_enc.setdefault(enc, []).append((tag, x, lat))
+            if not nz:
+                lat_by_enc.setdefault(enc, []).append((tag, x, lat))
         # declared number of latent variables
         if not ctx.known("F-C05-d", crit in ("PAFD", "PAU")):
             ctx.check(int(prob.nlatent) == nlat, crit + ".nlatent",
@@ -699,16 +774,21 @@ def check_ctor(case, ctx):
         lat1 = prob.latentfn(xr)
         ctx.check(_close_vec(lat1, rref, rtol), crit + ".definition.real",
                   lambda: "free real x=%s: latent %s, definition %s (tol %s)" % (xr.tolist(), lat1.tolist(), rref, rtol))
-        x2 = xr * float(dec["scale2"])
+        f2 = float(dec["scale2"]) * 2.0 ** int(dec.get("pow2", 0))          # rescaling factors from ~1e-35 to ~1e+33
+        x2 = xr * f2
+        real_labels(ctx, x2, "rescaled")
+        ctx.label("rescaling_factor<2^-40", f2 < 2.0 ** -40)
+        ctx.label("rescaling_factor>2^40", f2 > 2.0 ** 40)
         c2 = D.contributions([float(v) for v in x2])
         # the rescaled vector is a slightly different rational point; compare both to their own definition and to each other
         r2, t2 = oracle(crit, data, c2, [i for i in range(nd) if x2[i] > 0])
         lat2 = prob.latentfn(x2)
-        ctx.check(_close_vec(lat2, r2, t2), crit + ".definition.real",
-                  lambda: "rescaled real x=%s: latent %s, definition %s" % (x2.tolist(), lat2.tolist(), r2))
-        slack = [rtol[i] + t2[i] + abs(rref[i] - r2[i]) for i in range(nlat)]
-        ctx.check(all(abs(float(lat1[i]) - float(lat2[i])) <= slack[i] for i in range(nlat)), crit + ".rescaling_invariance",
-                  lambda: "x -> %r x changes the latent vector: %s vs %s" % (dec["scale2"], lat1.tolist(), lat2.tolist()))
+        if not near_zero_known(ctx, crit, "real", x2):
+            ctx.check(_close_vec(lat2, r2, t2), crit + ".definition.real",
+                      lambda: "rescaled real x=%s: latent %s, definition %s" % (x2.tolist(), lat2.tolist(), r2))
+            slack = [rtol[i] + t2[i] + abs(rref[i] - r2[i]) for i in range(nlat)]
+            ctx.check(all(abs(float(lat1[i]) - float(lat2[i])) <= slack[i] for i in range(nlat)), crit + ".rescaling_invariance",
+                      lambda: "x -> %r x changes the latent vector: %s vs %s" % (f2, lat1.tolist(), lat2.tolist()))
         ctx.label("real_free_vector")
 
 
@@ -819,7 +899,8 @@ def _hist_decision():
     return st.fixed_dictionaries({
         "perm": st.integers(0, 10 ** 6), "cnt": st.lists(st.integers(1, 3), min_size=6, max_size=6),
         "counts": st.booleans(), "nbest_raw": st.integers(0, 10),
-        "scale": st.one_of(st.floats(1e-3, 1e3, allow_nan=False), st.sampled_from([1.0, 0.1, 3.0, 1e-6, 1e6]))})
+        "scale": st.one_of(st.floats(1e-3, 1e3, allow_nan=False), st.sampled_from([1.0, 0.1, 3.0, 1e-6, 1e6])),
+        "pow": _pow2_some()})
 
 
 HIST_OPS = ["ndecn", "ndecn", "ndecn", "attr", "attr", "attr", "data_all", "data_all", "resize", "resize", "wt", "wt", "kwargs", "kwargs",
@@ -1069,7 +1150,7 @@ class History:
         if enc == "subset":
             x = numpy.array(members, dtype=int)
         elif enc == "real":
-            x = numpy.array([float(dec["scale"]) * v for v in cnt], dtype=float)
+            x = numpy.array([real_factor(dec) * v for v in cnt], dtype=float)
         else:
             x = numpy.array(cnt, dtype=int)
         return D.contributions(cnt), sorted(members), x
@@ -1084,7 +1165,9 @@ class History:
         ok_shape = isinstance(lat, numpy.ndarray) and lat.ndim == 1 and len(lat) == self.nlat
         ctx.check(ok_shape, self.pre + "latent.shape",
                   lambda: "%s%s%s %s: latent %r, expected length %d" % (self.what, after, crit, enc, getattr(lat, "shape", None), self.nlat))
-        if ok_shape and not (crit == "PAU" and ctx.known("F-C05-b", pau_signature(self.data, members))):
+        if enc == "real":
+            real_labels(ctx, x, "hist_real")
+        if ok_shape and not near_zero_known(ctx, crit, enc, x) and not (crit == "PAU" and ctx.known("F-C05-b", pau_signature(self.data, members))):
             ctx.check(_close_vec(lat, ref, tol), "%sdefinition.%s" % (self.pre, enc),
                       lambda: "%s%s%s %s, declared ndecn=%r, x=%s: latent %s, definition on the data now declared %s (tol %s)" % (
                           self.what, after, crit, enc, prob.ndecn, _brief(x), lat.tolist(), ref, tol))
@@ -1179,7 +1262,8 @@ def factory_history(ctx, crit, enc, fname, prob, rec, tr, x):
     raw = int(numpy.asarray(x, dtype=float).sum() * 7) % 1000 + k
     h = History(ctx, crit, enc, prob, rec, data, tr, nd, k, pre=crit + ".factory.history.", what=fname + " of ")
     ndecn0, lo0, hi0 = prob.ndecn, prob.decn_space_lower, prob.decn_space_upper
-    dec = lambda j: {"perm": raw + 31 * j, "cnt": [1 + (raw + j) % 3, 2, 1], "counts": bool((raw + j) % 2), "scale": [1.0, 0.37, 3.0][(raw + j) % 3]}
+    dec = lambda j: {"perm": raw + 31 * j, "cnt": [1 + (raw + j) % 3, 2, 1], "counts": bool((raw + j) % 2), "scale": [1.0, 0.37, 3.0][(raw + j) % 3],
+                     "pow": [0, -40, 0, -75, 33, -35][(raw // 3 + j) % 6]}
     pairs = [(a, key) for a, key in ([(PROP_NAME[crit], "v")] if crit in LINEAR_ARG else HELD[crit]) if key not in ("nbest", "ploidy")]
     attr, key = pairs[(raw // 6) % len(pairs)]
     # subset problems: another subset size, verified; every third of them and every second problem of the other encodings:
@@ -1335,7 +1419,7 @@ def dec_vectors(dec, nd, encs):
     if "integer" in encs:
         out["integer"] = numpy.array(cnt, dtype=int)
     if "real" in encs:
-        out["real"] = numpy.array([float(dec["scale"]) * v for v in cnt], dtype=float)
+        out["real"] = numpy.array([real_factor(dec) * v for v in cnt], dtype=float)
     if binary_mode and "binary" in encs:
         out["binary"] = numpy.array(cnt, dtype=int)
     if binary_mode and "subset" in encs:
@@ -1363,7 +1447,9 @@ def factory_latent(ctx, crit, enc, prob, data_eq, c, members, x, extra_tol=None,
     if extra_tol:
         tol = [tol[i] + extra_tol[i] for i in range(len(tol))]
     lat = prob.latentfn(x)
-    if guard is not None and guard():
+    if enc == "real":
+        real_labels(ctx, x, "fact_real")
+    if near_zero_known(ctx, crit, enc, x) or (guard is not None and guard()):
         return lat
     ctx.check(_close_vec(lat, ref, tol), crit + ".factory.latent",
               lambda: "%s x=%s: latent %s, definition on the population %s (tol %s)" % (enc, x.tolist(), lat.tolist(), ref, tol))
@@ -1744,6 +1830,10 @@ def check_fact_kinship(case, ctx):
                 jt = math.sqrt(qf + delta) - math.sqrt(max(qf - delta, 0.0))
                 rt = 64 * (n + 4) * EPS * (val + 1.0)
                 lat = prob.latentfn(xs[enc])
+                if enc == "real":
+                    real_labels(ctx, xs[enc], "fact_real")
+                if near_zero_known(ctx, crit, enc, xs[enc]):
+                    continue
                 got = float(lat[0])
                 exp0 = val if crit != "MEH" else -(1.0 - val)
                 ctx.check(abs(got - exp0) <= jt + rt, crit + ".factory.latent",
@@ -1984,7 +2074,11 @@ def hap_large_cases(tier):
                     "scale": float(rng.choice([1.0, 0.1, 3.0, 0.37])), "perm": int(rng.integers(0, 10 ** 6)),
                     "taxa": [int(v) for v in rng.integers(0, 10 ** 6, size=4)], "nbest_raw": int(rng.integers(0, 10)),
                     "ftr_seed": int(rng.integers(0, 2 ** 31 - 1))})
+        out[-1]["pow"] = LARGE_POW[out[-1]["perm"] % len(LARGE_POW)]      # units of the real-encoded candidate (no further draw)
     return out
+
+
+LARGE_POW = [0, -40, -72, 35]
 
 
 def seeded_fact_transforms(seed):
@@ -2009,7 +2103,7 @@ def large_decision(case, nd):
     cnt = [0] * nd
     for i, j in enumerate(idx):
         cnt[j] = max(cnt[j], int(case["counts"][i]))
-    return {"cnt": cnt, "perm": case["perm"], "scale": case["scale"]}
+    return {"cnt": cnt, "perm": case["perm"], "scale": case["scale"], "pow": case.get("pow", 0)}
 
 
 def check_fact_hap_large(case, ctx):
@@ -2140,6 +2234,7 @@ def uc_large_cases(tier):
                     "dec_cross": {"cnt": [int(v) for v in rng.integers(0, 3, size=10)], "perm": int(rng.integers(0, 10 ** 6)),
                                   "scale": float(rng.choice([1.0, 0.1, 3.0]))},
                     "ftr_seed": int(rng.integers(0, 2 ** 31 - 1))})
+        out[-1]["dec_cross"]["pow"] = LARGE_POW[out[-1]["dec_cross"]["perm"] % len(LARGE_POW)]
     return out
 
 
